@@ -397,6 +397,14 @@ impl Oracle {
                     &format!("type{}-{:?}-{}", ty, class, why.replace(' ', "_")),
                     format!("offered packet {} is malformed: {}", mr::hex(buf), why),
                 );
+                if why == "packet identifier 0" {
+                    self.flag(
+                        "C07",
+                        "id-zero",
+                        &format!("type{}", ty),
+                        format!("packet {} carries packet identifier 0", mr::hex(buf)),
+                    );
+                }
                 self.conns[c].torn = true;
             }
         }
